@@ -28,7 +28,7 @@ SUMMARY = ('### 7.0 Summary\n\n%d genuine defects of the pinned tree were found 
 txt = B + '\n\n' + 'SUMMARY_PLACEHOLDER' + '### 7.1 Genuine defects found on the pinned tree\n\n| property | status | /repo commit | what | found by |\n|---|---|---|---|---|\n' + '\n'.join(frows) + \
       '\n\n### 7.2 Seeded changes (written by independent sub-agents from the property text only) and which check catches them\n\n' \
       'Every change below compiles, passes the whole existing suite (433/433, confirmed in a scratch worktree with `seeded/confirm.sh`) and makes its own demonstration fail. ' \
-      '"checks" is the outcome of the registered quick commands run against `/repo` with the patch applied (`seeded/runchecks.sh`).\n\n' \
+      '"checks" is the outcome of the registered quick commands run against `/repo` with the patch applied (`seeded/runchecks.sh`, rounds a-c); round d and the behaviour-preserving changes of 7.3 were run with `seeded/runchk_scratch.sh`: the same check code from a copy of /verif, `VERIF_REPO` pointing at a scratch worktree of /repo HEAD with the patch applied, because /repo itself was busy with the thorough-tier sweeps.\n\n' \
       '| id | property | change | needs | checks |\n|---|---|---|---|---|\n' + '\n'.join(rows) + '\n\n' + 'NEUTRAL_PLACEHOLDER' + E
 nrows = []
 for d in sorted(glob.glob(os.path.join(V, 'seeded_neutral', '*', 'meta.json'))):
